@@ -14,6 +14,8 @@ def main():
         first = m["needs_to_manifest"].strip().splitlines()
         title = next((l.strip("# -*").strip() for l in first if l.strip()), "")[:110]
         det = "; ".join("%s (%s)" % (k, ", ".join(c.split(".", 1)[1] for c in v["clauses"][:2])) for k, v in sorted(m.get("detected_by", {}).items()))
+        if m.get("superseded"):
+            det = "(no longer a violation: superseded by a later repair, see meta.json)"
         rows.append("| %s | %s | %s | %s |" % (sid, title.replace("|", "/"), det or "—", ", ".join(m.get("not_detected_by", [])) or "—"))
     table = ("\n## Appendix F — seeded changes and the checks that catch them (quick tier)\n\n"
              "| id | change (first line of the author's notes) | detected by (clauses) | also run, silent |\n|---|---|---|---|\n"
